@@ -21,6 +21,7 @@ import (
 
 	"github.com/Oneledger/protocol/action"
 	"github.com/Oneledger/protocol/action/olvm"
+	"github.com/Oneledger/protocol/action/transfer"
 	"github.com/Oneledger/protocol/data/balance"
 	"github.com/Oneledger/protocol/data/evm"
 	"github.com/Oneledger/protocol/data/fees"
@@ -225,6 +226,7 @@ type c17Step struct {
 	ChainOK      bool
 	MemoOK       bool
 	Amount       string // send
+	SigOK        bool   // send: signed by the declared sender
 	// environment
 	BlockGas   string
 	SenderCode bool
@@ -570,12 +572,17 @@ func c17InitKind(init []byte) (string, keys.Address) {
 }
 
 func (c *c17Run) deliverSend(class, descr string, from Key, to keys.Address, amount string, gas int64) {
-	save := GAS
-	GAS = gas
-	bz := txSend(from, to, oltAmt(amount), fmt.Sprintf("c17-%d", len(c.steps)))
-	GAS = save
+	c.deliverSendX(class, descr, from, from, to, amount, gas, "1000000000")
+}
+
+// deliverSendX: SEND declared from [from], signed by [signer], with an explicit gas price
+func (c *c17Run) deliverSendX(class, descr string, from, signer Key, to keys.Address, amount string, gas int64, price string) {
+	data, err := transfer.Send{From: from.Addr, To: to, Amount: oltAmt(amount)}.Marshal()
+	must(err)
+	fee := action.Fee{Price: action.Amount{Currency: "OLT", Value: bigAmt(price)}, Gas: gas}
+	bz := signRaw(action.RawTx{Type: action.SEND, Data: data, Fee: fee, Memo: fmt.Sprintf("c17-%d", len(c.steps))}, signer)
 	pre := c17Project(c.rep.View())
-	st := c17Step{Kind: "send", Class: class, Descr: descr, Amount: amount, Price: "1000000000", Gas: gas, Height: c.rep.H, TxHex: hex.EncodeToString(bz), Check: -1, MinFee: c.minFee.String(), To: c.index(c17AddrKey(to))}
+	st := c17Step{Kind: "send", Class: class, Descr: descr, Amount: amount, Price: price, Gas: gas, SigOK: c17AddrKey(from.Addr) == c17AddrKey(signer.Addr), Height: c.rep.H, TxHex: hex.EncodeToString(bz), Check: -1, MinFee: c.minFee.String(), To: c.index(c17AddrKey(to))}
 	st.From = c.index(c17AddrKey(from.Addr))
 	res := c.rep.DeliverTx(bz)
 	post := c17Project(c.rep.View())
@@ -591,6 +598,15 @@ func (c *c17Run) deliverSend(class, descr string, from Key, to keys.Address, amo
 		st.GasUsed = c.lastSendGas
 	}
 	c.finish(&st, pre, post, []keys.Address{from.Addr, to})
+}
+
+func (c *c17Run) userIndex(u Key) int {
+	for i, x := range c.w.Users {
+		if c17AddrKey(x.Addr) == c17AddrKey(u.Addr) {
+			return i
+		}
+	}
+	return 0
 }
 
 func (c *c17Run) beginBlock() { c.rep.BeginBlock(&BlockIn{}); c.inBlock = nil }
@@ -658,13 +674,22 @@ func (c *c17Run) genStep() {
 		amount := strconv.Itoa(1 + r.Intn(100000))
 		gas := int64(1000000)
 		class := "send"
-		switch r.Intn(8) {
+		switch r.Intn(14) {
 		case 0:
 			amount = "3000000000000000000000000"
 			class = "send-too-much"
 		case 1:
 			gas = 1000
 			class = "send-gas-low"
+		case 2:
+			c.deliverSendX("send-wrong-signer", "native send signed by someone else", u, c.w.Users[(r.Intn(2)+1+c.userIndex(u))%len(c.w.Users)], c.anyAddr(), amount, gas, "1000000000")
+			return
+		case 3:
+			c.deliverSendX("send-price-below-min", "native send priced below the minimum fee", u, u, c.anyAddr(), amount, gas, []string{"0", "999999999"}[r.Intn(2)])
+			return
+		case 4:
+			c.deliverSendX("send-negative-amount", "native send of a negative amount", u, u, c.anyAddr(), "-"+amount, gas, "1000000000")
+			return
 		}
 		c.deliverSend(class, "native send", u, c.anyAddr(), amount, gas)
 		return
@@ -904,6 +929,8 @@ func (c *c17Run) directed() {
 	dl("directed-intrinsic", e0, &f0, c.stNonce(e0.Addr), zero, 20999, nil, 0)
 	c.deliverOLVM("directed-price0", "zero gas price", e0, e0.Addr, &f0, c.stNonce(e0.Addr), big.NewInt(4), zero, 21000, nil, c.chain, c.chain, strconv.FormatUint(c.stNonce(e0.Addr), 10), 0, nil, nil)
 	c.deliverOLVM("directed-wrong-chain", "wrong chain id", e0, e0.Addr, &f0, c.stNonce(e0.Addr), big.NewInt(4), c17Gwei, 21000, nil, big.NewInt(1), big.NewInt(1), strconv.FormatUint(c.stNonce(e0.Addr), 10), 0, nil, nil)
+	c.deliverSendX("directed-send-wrong-signer", "native send signed by someone else", c.w.Users[0], c.w.Users[1], c.ek[5].Addr, "5", 1000000, "1000000000")
+	c.deliverSendX("directed-send-price0", "native send at zero price", c.w.Users[0], c.w.Users[0], c.ek[5].Addr, "5", 1000000, "0")
 	c.deliverSend("directed-send", "native send to an eth account", c.w.Users[0], c.ek[5].Addr, "50000000000000", 1000000)
 	dl("directed-after-native-credit", c.ek[5], &f0, 0, big.NewInt(1), 21000, nil, 0)
 	c.endBlock()
@@ -950,12 +977,12 @@ func c17StepCoq(s *c17Step) string {
 		for _, d := range s.Dead {
 			dead = append(dead, strconv.Itoa(d))
 		}
-		in = fmt.Sprintf("(IOlvm (mkE %s %s %d %s) (mkT %d %s %s %s %s %d %d %d %s %s) (mkO %s %s [%s] [%s]))",
-			s.BlockGas, c17Bool(s.SenderCode), s.Created, c17Bool(s.Dup),
+		in = fmt.Sprintf("(IOlvm (mkE %s %s %d %s %s) (mkT %d %s %s %s %s %d %d %d %s %s) (mkO %s %s [%s] [%s]))",
+			s.BlockGas, c17Bool(s.SenderCode), s.Created, c17Bool(s.Dup), c17Z(s.MinFee),
 			s.From, c17Z(strconv.Itoa(s.To)), c17Z(s.Value), c17Z(strconv.FormatInt(s.Gas, 10)), c17Z(s.Price), s.Nonce, s.NZ, s.Z, c17Bool(s.ChainOK), c17Bool(s.MemoOK),
 			c17Z(s.Left), c17Bool(s.Failed), strings.Join(ints, ";"), strings.Join(dead, ";"))
 	} else {
-		in = fmt.Sprintf("(ISend (mkN %d %d %s %s %d) %d)", s.From, s.To, c17Z(s.Amount), c17Z(s.Price), s.Gas, s.GasUsed)
+		in = fmt.Sprintf("(ISend %s (mkN %d %d %s %s %d %s) %d)", c17Z(s.MinFee), s.From, s.To, c17Z(s.Amount), c17Z(s.Price), s.Gas, c17Bool(s.SigOK), s.GasUsed)
 	}
 	var addrs, views []string
 	for _, a := range s.Addrs {
